@@ -68,6 +68,24 @@ theorem oversend_never_transmitted (c : ClientCfg) (s : ServerCfg) (comp : Optio
     cases h2 : recvOk (wireLen comp req) (isCompressed comp req) req (serverRecvLimit s) <;>
     simp [h1, h2, e3] at hg ⊢
 
+/-- The send check does not depend on how the message was handed over: a `*grpc.PreparedMsg` encoded on
+    the stream is checked (post-compression size against the limit) exactly like the plain message, and
+    is handed to the transport only when it fits. -/
+theorem prepared_msg_is_checked (comp : Option Comp) (limit : Int) (n : Nat) :
+    sendMsg comp limit (.prepared (encodePrepared comp n)) = sendMsg comp limit (.plain n) ∧
+    (∀ m : Msg, sendMsg comp limit m = none ↔ (payloadLenOf comp m : Int) > limit) ∧
+    (∀ m k, sendMsg comp limit m = some k → k = payloadLenOf comp m ∧ (k : Int) ≤ limit) := by
+  refine ⟨rfl, ?_, ?_⟩
+  · intro m
+    unfold sendMsg sendOk
+    by_cases h : (payloadLenOf comp m : Int) > limit <;> simp [h]
+  · intro m k h
+    unfold sendMsg sendOk at h
+    by_cases hg : (payloadLenOf comp m : Int) > limit
+    · simp [hg] at h
+    · simp [hg] at h
+      exact ⟨h.symm, by omega⟩
+
 /-- A received message whose wire size or decompressed size exceeds the receiver's limit is not
     delivered and the RPC fails with RESOURCE_EXHAUSTED: the request at the server (when the client
     let it out), the reply at the client (when the server let it out). -/
